@@ -133,13 +133,9 @@ def run(ctx):
 
     ctx.rule("C18.R3", "opcode 0xD executes only with the flag on, else exit(1)", floor=3)
     # the 0xD handler = entry 13 of the dispatch table
-    table = None
-    for n, f in prog.fns.items():
-        if n.endswith("RunState::OP_TABLE"):
-            fns = [s["r"]["a"].get("resolved") or s["r"]["a"].get("fn") for blk in f.blocks for s in blk["stmts"]
-                   if s["k"] == "assign" and s["r"]["k"] == "cast" and "ReifyFnPointer" in s["r"].get("ck", "")]
-            table = fns
-    ctx.need(table and len(table) == 16, "16-entry dispatch table")
+    disp = kit.opcode_dispatch(prog, ctx.fn("lace::runtime::RunState::execute"))
+    table = disp["handlers"] if disp else None
+    ctx.need(table and len(table) == 16, "the 16-way opcode dispatch of execute")
     h = ctx.fn(table[0xD])
     fbs = [b for b, t, c in h.calls() if c == FLAG]
     ctx.need(len(fbs) == 1, "flag test in the 0xD handler")
